@@ -335,7 +335,30 @@ func (doc *Document) AddFamilyWithHusbandAndWife(pointer string, husband, wife *
 func (doc *Document) DeleteNode(node Node) (didDelete bool) {
 	doc.nodes, didDelete = doc.nodes.deleteNode(node)
 
+	// The node must also disappear from everything that has been derived from
+	// the root nodes. This is the same easy option as in AddIndividual: rather
+	// than work out what depends on the node we reset all of it.
+	if didDelete {
+		doc.buildPointerCache()
+		doc.families = nil
+		doc.resetCaches()
+	}
+
 	return
+}
+
+// resetCaches forgets what the individuals and families have remembered about
+// each other (their families, spouses, husband and wife).
+func (doc *Document) resetCaches() {
+	for _, node := range doc.nodes {
+		switch n := node.(type) {
+		case *IndividualNode:
+			n.resetCache()
+
+		case *FamilyNode:
+			n.resetCache()
+		}
+	}
 }
 
 func (doc *Document) Warnings() (warnings Warnings) {
